@@ -2,7 +2,8 @@
 (***************************************************************************)
 (* Layer 2 - closed first-order type expressions, their denotation over a  *)
 (* witness universe, and the sound subtype relation (property C12).        *)
-(*   <<"ty", "/any"|"/number"|"/string"|"/name"|"/float64">>  base types   *)
+(*   <<"ty", "/any"|"/number"|"/string"|"/name"|"/float64"|"/time"|        *)
+(*          "/duration">>                                     base types   *)
 (*   <<"pre", parts>>          names strictly below the prefix             *)
 (*   <<"single", value>>       exactly that constant                       *)
 (*   <<"union", <<t...>>>>  <<"tpair", a, b>>  <<"tlist", a>>  <<"tmap", k, v>>*)
@@ -18,6 +19,8 @@ Member(t, c) ==
                         [] t[2] = "/string" -> c[1] = "s"
                         [] t[2] = "/name" -> c[1] = "cn"
                         [] t[2] = "/float64" -> c[1] = "f"
+                        [] t[2] = "/time" -> c[1] = "t"          \* all time instants (not the names below /time)
+                        [] t[2] = "/duration" -> c[1] = "d"
                         [] OTHER -> FALSE
     [] t[1] = "pre" -> c[1] = "cn" /\ IsStrictPrefix(t[2], c[2])
     [] t[1] = "single" -> c = t[2]
